@@ -738,7 +738,13 @@ def run_case(case, cfg):
                 rep["violations"].append(viol)
     n_live = sum(rep["path_status"].get(k, 0) for k in ("ok", "raised"))
     if n_live and not reached and not rep["gaps"] and rep["path_status"].get("vacuous", 0) >= n_live:
-        rep["vacuous"] = True  # every completed path has provably unsatisfiable hypotheses
+        if rep["unwound"] or rep["leftover"]:
+            # the completed paths were speculative (the feasibility solver over-approximates) and the feasible ones
+            # ran into the unwinding / path bound: nothing was decided -- inconclusive, not an inconsistent harness
+            rep["inconclusive"].append(dict(path=-1, goal="*", why="no feasible path completed within the bounds (%d unwound, %d "
+                                            "not explored, %d completed paths infeasible)" % (rep["unwound"], rep["leftover"], n_live)))
+        else:
+            rep["vacuous"] = True  # every path of a complete exploration has provably unsatisfiable hypotheses
     rep["q"] = qs.as_dict()
     rep["cross"] = qs.cross
     rep["feas_queries"] = est.feas_queries
